@@ -187,8 +187,8 @@ theorem Inv.step_cr0_pop {c : Cfg} {o : Orders} {s : State} {m : Mem Loc} {t i o
     exact key .idle (upd s.ret t (some i)) (upd s.tslot t (some i)) (Or.inr ⟨htls, rfl, rfl⟩)
 
 /-- `deallocate(i)`: Accessor::release / thread exit -/
-theorem Inv.step_rl0 {c : Cfg} {o : Orders} {s : State} {m : Mem Loc} {t i old : Nat} (inv : Inv c o s)
-    (ho : o.Safe) (hp : s.pc t = .rl0 i) (hr : s.mem.rmw t (.fl i) o.freePush id = some (m, old)) :
+theorem Inv.step_rl2 {c : Cfg} {o : Orders} {s : State} {m : Mem Loc} {t i old : Nat} (inv : Inv c o s)
+    (ho : o.Safe) (hp : s.pc t = .rl2 i) (hr : s.mem.rmw t (.fl i) o.freePush id = some (m, old)) :
     Inv c o { s with mem := m, own := upd s.own i .free, pc := upd s.pc t .idle,
                      tslot := if c.tls then upd s.tslot t none else s.tslot } := by
   have hpc := inv.pcs t; unfold PcOK at hpc; rw [hp] at hpc
